@@ -121,7 +121,7 @@ def main():
         else:
             rec["status"] = "live"
         results[p["id"]] = rec
-        if rec["status"] == "live":
+        if rec["status"] == "live" or (rec["status"] == "suite-killed" and "--include-suite-killed" in sys.argv):
             prepared.append((p, d, rec))
         else:
             print("%-34s %s" % (p["id"], rec["status"]), flush=True)
